@@ -326,7 +326,7 @@ func c19Spawn(c c19Case, wall time.Duration) c19Outcome {
 		exe, _ = os.Executable()
 	}
 	js, _ := json.Marshal(c)
-	cmd := exec.Command(exe, "-test.run", "^TestC19Case$", "-test.timeout", "10m")
+	cmd := exec.Command(exe, append([]string{"-test.run", "^TestC19Case$", "-test.timeout", "10m"}, childCoverArgs()...)...)
 	cmd.Env = append(os.Environ(), "VERIF_PROP=", "VERIF_C19_CASE="+string(js))
 	var so bytes.Buffer
 	cmd.Stdout, cmd.Stderr = &so, &so
